@@ -53,6 +53,18 @@ DivSR(a, d, i, r) == IF i = 0 THEN <<<<>>, r>>
                           IN <<rest[1] \o <<cur \div d>>, rest[2]>>
 NDivS(a, d) == LET x == DivSR(a, d, Len(a), 0) IN [q |-> Norm(x[1]), r |-> x[2]]   \* 0 < d < 2^16
 
+(* general division by binary shift-subtract (b # 0); fast paths for small operands *)
+NBit(a, i) == (D(a, (i \div DB) + 1) \div (2 ^ (i % DB))) % 2
+NShl1(a, bit) == LET x == NAdd(a, a) IN IF bit = 1 THEN NAdd(x, <<1>>) ELSE x
+RECURSIVE DivR(_, _, _, _, _)
+DivR(a, b, i, q, r) == IF i < 0 THEN [q |-> q, r |-> r]
+                       ELSE LET r2 == NShl1(r, NBit(a, i)) IN
+                            IF NCmp(r2, b) >= 0 THEN DivR(a, b, i - 1, NShl1(q, 1), NSub(r2, b))
+                            ELSE DivR(a, b, i - 1, NShl1(q, 0), r2)
+NDivMod2(a, b) == IF NCmp(a, b) < 0 THEN [q |-> <<>>, r |-> a]
+                  ELSE IF Len(b) = 1 THEN LET x == NDivS(a, b[1]) IN [q |-> x.q, r |-> IF x.r = 0 THEN <<>> ELSE <<x.r>>]
+                  ELSE DivR(a, b, Len(a) * DB - 1, <<>>, <<>>)
+
 RECURSIVE ToDecR(_)
 ToDecR(a) == IF a = <<>> THEN <<>> ELSE LET x == NDivS(a, 10) IN ToDecR(x.q) \o <<x.r>>
 NToDec(a) == IF a = <<>> THEN <<0>> ELSE ToDecR(a)                 \* most significant digit first
